@@ -202,15 +202,30 @@ def rule_print_args(check):
     check.rule(R, "PrintArgs: source_map = Bool(true), emit_source_map_columns = true, source_file_name = base name of the file; the printed program is the one that was parsed from (file, code) and visited")
     prog = check.prog
     t = prog.fn("rewriter::transform_js")
-    lits = [n for n in hir.walk(t.body) if n.get("k") == "Struct" and (n["res"].get("path") or "").endswith("PrintArgs")]
-    check.floor(R, "PrintArgs literals", len(lits), 1)
-    for n in lits:
+    fl = prog.flat(t, 2)
+    lits_g = [(g, n) for g in fl for n in hir.walk(g.body) if n.get("k") == "Struct" and (n["res"].get("path") or "").endswith("PrintArgs")]
+    check.floor(R, "PrintArgs literals", len(lits_g), 1)
+
+    def is_file_param(g, e, depth=0):
+        """e, in g, is the `file` parameter of transform_js (through the parameters of helpers)"""
+        l = hir.local_of(e)
+        if not l or depth > 3:
+            return False
+        o = g.bindings()[l[0]]["origin"]
+        if o[0] != "param" or o[2]:
+            return False
+        if g is t:
+            return True
+        sites = [(h, c) for h in fl for c in h.nodes() if hir.is_call(c) and prog.resolve_local(c) is g]
+        return bool(sites) and all(len(hir.call_args(c)) > o[1] and is_file_param(h, hir.call_args(c)[o[1]], depth + 1) for h, c in sites)
+
+    for g_lit, n in lits_g:
         flds = {x["name"]: hir.peel(x["e"]) for x in n["fields"]}
         sm = flds.get("source_map", {})
         ok_sm = sm.get("k") == "Call" and (hir.peel(sm["f"]).get("res", {}).get("ctor_path") or "").endswith("SourceMapsConfig::Bool") and hir.lit_value(sm["args"][0]) is True
         ok_cols = hir.lit_value(flds.get("emit_source_map_columns", {})) is True
         fn_ = flds.get("source_file_name", {})
-        ok_name = hir.is_call(fn_) and hir.callee_name(fn_) == "file_name" and hir.local_of(hir.call_args(fn_)[0]) and t.bindings()[hir.local_of(hir.call_args(fn_)[0])[0]]["origin"][0] == "param"
+        ok_name = hir.is_call(fn_) and hir.callee_name(fn_) == "file_name" and is_file_param(g_lit, hir.call_args(fn_)[0])
         check.expect(ok_sm, R, R + "/source_map", hir.loc(n), "source_map: Bool(true)", "PrintArgs.source_map is %s" % hir.describe(sm))
         check.expect(ok_cols, R, R + "/columns", hir.loc(n), "emit_source_map_columns: true", "PrintArgs.emit_source_map_columns is not true")
         check.expect(bool(ok_name), R, R + "/source_file_name", hir.loc(n), "source_file_name: file_name(file)", "PrintArgs.source_file_name is %s" % hir.describe(fn_))
@@ -265,6 +280,11 @@ def rule_print_path(check):
                     lf = [hir.local_of(ca[i]) for i in fi]
                     ok = bool(lc) and rj.bindings()[lc[0]]["origin"][:2] == ("param", 0) and any(l and rj.bindings()[l[0]]["origin"][:2] == ("param", 1) for l in lf)
     check.expect(ok, R, R + "/source-file", hir.loc(rj.rec), "the source file registered is (file, code) of this call", "rewrite_js does not register (file, code) as the source file")
+    # swc's source-map generator drops every mapping of files that are not FileName::Real / Url / ...
+    # (Custom names starting with `<`, Anon, Internal, MacroExpansion): the file must be registered as Real
+    names_ = [x for g_ in prog.flat(rj, 1) for n_ in hir.calls_in(g_.body, name="new_source_file") for x in hir.walk(hir.call_args(n_)[1]) if x.get("k") == "Call" and (hir.peel(x["f"]).get("res", {}).get("ctor_path") or "").startswith("swc_common::FileName::") or (x.get("k") == "Path" and (x.get("res", {}).get("ctor_path") or "").startswith("swc_common::FileName::"))]
+    kinds_ = sorted({((hir.peel(x["f"]) if x.get("k") == "Call" else x).get("res", {}).get("ctor_path") or "").split("::")[-1] for x in names_})
+    check.expect(kinds_ == ["Real"], R, R + "/file-name-kind", hir.loc(rj.rec), "the input is registered as FileName::Real", "the input is registered as FileName::%s: swc emits no mappings for some names of that kind (e.g. Custom names starting with `<`), so the embedded map comes out empty" % "/".join(kinds_ or ["?"]))
 
 
 def run(check):
